@@ -237,7 +237,9 @@ def rule_removal_returns(ctx, chk, L, rid, rid_notfound):
                     continue   # amend path: rule U3
                 # a removal path: the answer must be the payload of Q.remove itself
                 seen.setdefault(arm, set()).add("remove")
-                ok = len(removes) == 1 and (inner == removes[0][2][3])
+                res_t = removes[0][2][3] if removes else None
+                rebuilt = ("agg", "std::option::Option", "Some", (("0", ("field", res_t, "Some", "0")),))
+                ok = len(removes) == 1 and (inner == res_t or inner == rebuilt)
                 chk.require(ok, rid, "%s:%s" % (b.defp, arm), b.span,
                             "acknowledges %s, which is not the value handed out by the queue's remove (only the map removal "
                             "guarantees exclusive ownership)" % short(inner)[:200], describe_path(r))
